@@ -1829,13 +1829,14 @@ func c12RunWorker(c *lib.Ctx, part []*c12Prog, idle time.Duration) (lines []stri
 // again ALONE in a fresh process under the same watch. Only a program that stalls then too is
 // recorded as hung (every word "!hang"); otherwise its results are used. The rest of the chunk is
 // queued again.
-// c12Idle: no finished run for this long = stalled (a run normally takes 5-50 ms).
+// c12Idle: no finished run for this long = stalled (a run normally takes 5-50 ms; at load average 400
+// on 16 cores a history program was seen to take several seconds).
 // VERIF_C12_IDLE_S overrides it (only meant for exercising the hang path quickly).
 var c12Idle = func() time.Duration {
 	if v, err := strconv.Atoi(os.Getenv("VERIF_C12_IDLE_S")); err == nil && v > 0 {
 		return time.Duration(v) * time.Second
 	}
-	return 3 * time.Minute
+	return 5 * time.Minute
 }()
 
 func c12RunAll(c *lib.Ctx, progs []*c12Prog) map[string][][]string {
@@ -1937,8 +1938,8 @@ func c12RunAll(c *lib.Ctx, progs []*c12Prog) map[string][][]string {
 				}
 				mu.Unlock()
 				if suspect != nil {
-					// confirmation: the program alone, fresh process
-					lines, timedOut, err := c12RunWorker(c, []*c12Prog{suspect}, c12Idle)
+					// confirmation: the program alone, fresh process, twice the patience
+					lines, timedOut, err := c12RunWorker(c, []*c12Prog{suspect}, 2*c12Idle)
 					mu.Lock()
 					if err != nil {
 						fmt.Fprintf(os.Stderr, "C12 worker failed: %v\n", err)
